@@ -350,13 +350,14 @@ Lemma zero_timeout_cons c cmds : zero_timeout (c :: cmds) = cmd_zero c || zero_t
 Proof. unfold zero_timeout. simpl. destruct c as [? ? ? [t|] ?| | |]; reflexivity. Qed.
 
 Lemma mid_cmds now cmds : forall z s s2 p e,
-  now < u64_max -> Mid now z s -> st_alive s = true ->
+  (cmds = [] \/ now < u64_max) -> Mid now z s -> st_alive s = true ->
   run_cmds now cmds s = (s2, p, e) -> st_alive s2 = true ->
   Mid now (z || zero_timeout cmds) s2 /\ has_shutdown cmds = false.
 Proof.
   induction cmds as [|c rest IH]; intros z s s2 p e Hnow M Ha Hrun Ha2; simpl in Hrun.
   - inversion Hrun; subst. unfold zero_timeout. simpl. rewrite orb_false_r. auto.
-  - destruct (exec_cmd now c s) as [[s1 p1] e1] eqn:E1.
+  - destruct Hnow as [Hnow|Hnow]; [discriminate|].
+    destruct (exec_cmd now c s) as [[s1 p1] e1] eqn:E1.
     assert (Hc : c <> CShutdown).
     { intros ->. simpl in E1. inversion E1; subst. inversion Hrun; subst. simpl in Ha2. discriminate. }
     pose proof (mid_cmd now z s c Hnow M Hc) as M1. rewrite E1 in M1. simpl in M1.
@@ -366,7 +367,7 @@ Proof.
     { destruct c; try exact Hrun. congruence. }
     inversion Hrun'; subst.
     assert (A1' : st_alive s1 = true). { destruct c; try (rewrite A1; exact Ha). congruence. }
-    destruct (IH (z || cmd_zero c) s1 s2 p2 e2 Hnow M1 A1' E2 Ha2) as [M2 Hs].
+    destruct (IH (z || cmd_zero c) s1 s2 p2 e2 (or_intror Hnow) M1 A1' E2 Ha2) as [M2 Hs].
     split.
     + rewrite zero_timeout_cons. rewrite orb_assoc. exact M2.
     + unfold has_shutdown. simpl. destruct c; try exact Hs. congruence.
@@ -495,7 +496,8 @@ Lemma timeout_phase_alive now s : st_alive (timeout_phase now s) = true.
 Proof. reflexivity. Qed.
 
 Lemma iterate_inv s it :
-  Inv s -> i_now it < u64_max -> st_alive (fst (iterate s it)) = true -> Inv (fst (iterate s it)).
+  Inv s -> (i_cmds it = [] \/ i_now it < u64_max) ->
+  st_alive (fst (iterate s it)) = true -> Inv (fst (iterate s it)).
 Proof.
   intros I Hnow. unfold iterate.
   destruct (run_cmds (i_now it) (i_cmds it) (timeout_phase (i_now it) s)) as [[s2 p_c] ev_c] eqn:E.
@@ -507,8 +509,27 @@ Proof.
   - simpl. congruence.
 Qed.
 
+Lemma iterate_timers s it :
+  Inv s -> (i_cmds it = [] \/ i_now it < u64_max) -> st_alive (fst (iterate s it)) = true ->
+  st_clock (fst (iterate s it)) = i_now it
+  /\ forall t, In t (st_timers (fst (iterate s it))) ->
+               i_now it < t \/ (zero_timeout (i_cmds it) = true /\ t = i_now it).
+Proof.
+  intros I Hnow. unfold iterate.
+  destruct (run_cmds (i_now it) (i_cmds it) (timeout_phase (i_now it) s)) as [[s2 p_c] ev_c] eqn:E.
+  destruct (st_alive s2) eqn:A.
+  - destruct (rerun_phase (i_now it) s2) as [[s3 p_r] ev_r] eqn:E3. simpl. intros _.
+    destruct (mid_cmds (i_now it) (i_cmds it) false _ s2 p_c ev_c Hnow (inv_mid s (i_now it) I)
+                (timeout_phase_alive _ _) E A) as [M _].
+    simpl in M. split.
+    + destruct (ip_phase_frame (i_now it) s3) as [F1 _]. rewrite F1.
+      unfold rerun_phase in E3. injection E3 as <- _ _. simpl. apply (mid_clock _ _ _ M).
+    + exact (mid_timers_future _ _ _ _ _ _ M E3).
+  - simpl. congruence.
+Qed.
+
 Lemma iterate_wake s it :
-  Inv s -> i_now it < u64_max ->
+  Inv s -> (i_cmds it = [] \/ i_now it < u64_max) ->
   forall w, o_wake (snd (iterate s it)) = Some w ->
             i_now it < w \/ (zero_timeout (i_cmds it) = true /\ w = i_now it).
 Proof.
@@ -533,7 +554,7 @@ Proof.
   destruct (st_alive s) eqn:As; [|exact I].
   inversion R as [|x xs R1 R2]; subst.
   destruct (st_alive (fst (iterate s it))) eqn:A1.
-  - apply IH; [apply iterate_inv; assumption | exact R2 | exact A].
+  - apply IH; [apply iterate_inv; auto | exact R2 | exact A].
   - rewrite final_dead in A by exact A1. congruence.
 Qed.
 
